@@ -87,10 +87,10 @@ class Config:
                 for p in self.real_pulses:
                     a = self._adjusted(p, ch)
                     if a is None:
-                        row.append({"fs": 0, "fe": 0, "w": []})
+                        row.append({"fs": 0, "fe": 0, "w": [], "ok": False})
                     else:
                         fs, fe = fall_times(a, ch)
-                        row.append({"fs": fs, "fe": fe, "w": pulse_facts(a)})
+                        row.append({"fs": fs, "fe": fe, "w": pulse_facts(a), "ok": True})
                 per_dev.append(row)
             tab.append(per_dev)
         return tab
